@@ -324,6 +324,45 @@ def check_invert(workroot):
     return dict(exponent="p-2", ir_steps=it.steps)
 
 
+def check_sc_invert(workroot):
+    """sc25519_invert(recip, s) == s^(L-2) mod L: sc25519_mul / sc25519_sq are interpreted on exponents of s (the helper
+    sc25519_sqmul runs as real code on top of them)"""
+    L = (1 << 252) + 27742317777372353535851937790883648493
+    wd = os.path.join(workroot, "ladder-ed25519")
+    ll = os.path.join(wd, "linked.ll")
+    if not os.path.exists(ll):
+        build.build_module(wd, ["crypto_core/ed25519/ref10/ed25519_ref10.c", "sodium/utils.c"], opt=build.OPT + ["-fno-inline-functions"])
+    mod = ir.parse_module(open(ll).read())
+    T.MODE = "term"
+    it = interp.Interp(mod, None)
+
+    class E(T.Term):
+        __slots__ = ("e",)
+
+        def __init__(self, e):
+            self.op = "exp"; self.args = (); self.w = 256; self.aux = None; self.sec = True; self.e = e
+
+    def get(p):
+        cell = it.objs[p.obj].bytes.get(p.off)
+        if isinstance(cell, tuple) and isinstance(cell[0], E):
+            return cell[0].e
+        raise Mismatch("exponent value expected")
+
+    def put(p, e):
+        it.store_bytes(p, E(e), 32, "exp")
+    N = lambda nm: xname(it, nm)
+    it.stubs[N("sc25519_mul")] = lambda it_, a: put(a[0], get(a[1]) + get(a[2]))
+    it.stubs[N("sc25519_sq")] = lambda it_, a: put(a[0], 2 * get(a[1]))
+    z = it.new_buffer(32, "s", False, [0] * 32)
+    out = it.new_buffer(32, "recip", False, [0] * 32)
+    put(z, 1)
+    it.call(N("sc25519_invert"), [out, z])
+    e = get(out)
+    if e != L - 2:
+        raise Mismatch("sc25519_invert computes s^%d, not s^(L-2)" % e)
+    return dict(exponent="L-2", ir_steps=it.steps)
+
+
 class _Done(Exception):
     pass
 
@@ -400,7 +439,7 @@ def run(which, workroot):
     res = {"target": which, "status": "inconclusive", "detail": "", "wall_s": 0.0}
     t0 = time.time()
     try:
-        info = {"x25519-ladder-rfc7748": check_ladder, "x25519-invert": check_invert, "x25519-ladder-bounds": check_bounds}[which](workroot)
+        info = {"x25519-ladder-rfc7748": check_ladder, "x25519-invert": check_invert, "x25519-ladder-bounds": check_bounds, "sc25519-invert": check_sc_invert}[which](workroot)
         res.update(info)
         res["status"] = "ok"
     except Mismatch as e:
